@@ -205,7 +205,7 @@ PROPS.update({
             "preference, last group, active group) at random times, and 1-4 configurations that rtr_mgr_init must reject (no groups, a group without "
             "sockets, duplicate preferences, out-of-range intervals). Oracles on every rtr_mgr_status_fp invocation (statements, not a re-implementation "
             "of the callback) and after every operator call.",
-            "suites": [_world("C15")], "min_counters": {"status_cb": 2000, "init_cases": 300, "group_order_audits": 300},
+            "suites": [_world("C15", runs_quick=3000, time_quick=80)], "min_counters": {"status_cb": 2000, "init_cases": 300, "group_order_audits": 300},
             "expected_probes": ["probe_group_established", "probe_group_closed_by_failover", "probe_failover_started_next_group", "probe_group_added",
                                 "probe_group_add_rejected", "probe_group_removed", "probe_group_remove_rejected"],
             "assumptions": ["consequences of a status report are checked when the reporting socket thread reports again (its callback has returned) or at the end of the run"]},
